@@ -232,6 +232,10 @@ func (m *Module) start(reports chan *report) {
 			// keep its dependencies from ever being stopped.
 			m.Lock()
 			m.status = StatusOffline
+			// Cancel the context of the failed start: whatever the start function
+			// already launched is told to stop, and tasks waiting for this module
+			// to come online are released.
+			m.cancelCtx()
 			m.Unlock()
 			m.Error(
 				fmt.Sprintf("%s:start-failed", m.Name),
